@@ -224,8 +224,24 @@ func run(c *vk.Ctx, can *rig.Canary, sc scen, idx int) {
 		}
 		if disconnected() {
 			c.Violate(key("disconnected-despite-answer/"+sc.answer), fmt.Sprintf("%s: a %s arrived %v after the TestRequest, yet the session was disconnected within the following %v", desc, sc.answer, t1.Sub(tr.T).Round(time.Millisecond), (T - 100*time.Millisecond)), replay)
+			return
 		}
 		c.Count("answers_checked", 1)
+		// the pending disconnect was cancelled: after another full period of silence the peer is probed AGAIN
+		// (a new TestRequest) instead of being disconnected at once
+		tr2, ok2 := awaitTestRequest(t1, 1)
+		if overloaded() {
+			return
+		}
+		if disconnected() && (!ok2 || !tr2.T.Before(time.Now().Add(-T/2))) {
+			c.Violate(key("disconnected-without-second-probe/"+sc.answer), fmt.Sprintf("%s: after the %s that answered the first TestRequest the peer fell silent again; the session disconnected %v after that answer without sending a second TestRequest first (second TestRequest seen: %v)", desc, sc.answer, time.Since(t1).Round(time.Millisecond), ok2), replay)
+			return
+		}
+		if !ok2 {
+			c.Violate(key("no-second-testrequest/"+sc.answer), fmt.Sprintf("%s: no second TestRequest within %v of the %s that ended the first silence", desc, T+T/10+slackNow(), sc.answer), replay)
+			return
+		}
+		c.Count("second_probes_seen", 1)
 	case "steady-traffic":
 		periods := 12
 		step := time.Duration(sc.n) * time.Second * 95 / 100
@@ -253,7 +269,7 @@ func run(c *vk.Ctx, can *rig.Canary, sc scen, idx int) {
 
 func main() {
 	c := vk.Init("C09")
-	c.Rule("full-stack sessions, both roles, N in {1,2} (quick) + {5,20,40} (thorough; N=40 exercises the N/20 branch), T = N + max(1,N/20); inbound patterns: total silence; silence ending 0.3 s before the deadline; a message (Heartbeat / application / unknown type / TestRequest) arriving 2%, 10%, 50%, 85% into the second period; steady traffic with period 0.95 N for 12 periods. Oracle: silence => TestRequest within T + T/10 + slack of the last inbound message (and not before T), then EventDisconnect, OnStopped/OnDisconnect, net.Conn.Close (and Serve return) within T + T/10 + slack of the TestRequest (and not before T); an inbound message of any type in the second period finds the session connected and buys another period; live peers see no TestRequest and no disconnect. slack = 100 ms + 3 x measured scheduler oversleep. distinct = (role, N, pattern, answer type); non-trivial = a timer expiry or a cancelled expiry was observed")
+	c.Rule("full-stack sessions, both roles, N in {1,2} (quick) + {5,20,40} (thorough; N=40 exercises the N/20 branch), T = N + max(1,N/20); inbound patterns: total silence; silence ending 0.3 s before the deadline; a message (Heartbeat / application / unknown type / TestRequest) arriving 2%, 10%, 50%, 85% into the second period; steady traffic with period 0.95 N for 12 periods. Oracle: silence => TestRequest within T + T/10 + slack of the last inbound message (and not before T), then EventDisconnect, OnStopped/OnDisconnect, net.Conn.Close (and Serve return) within T + T/10 + slack of the TestRequest (and not before T); an inbound message of any type in the second period finds the session connected, buys another period, and renewed silence is probed again with a second TestRequest before any disconnect; live peers see no TestRequest and no disconnect. slack = 100 ms + 3 x measured scheduler oversleep. distinct = (role, N, pattern, answer type); non-trivial = a timer expiry or a cancelled expiry was observed")
 	c.Assume("reference instant of an inbound message = the moment it was handed to the scripted connection (the library's Read returns it within microseconds)")
 	can := rig.StartCanary()
 	defer can.Stop()
